@@ -155,6 +155,26 @@ impl G {
             self.dispf.push(f);
             return out;
         }
+        // a name re-bound to a value of another type (another tuple name, another tuple length), then
+        // dispatched on / destructured: what was known about the old holder of the name is void
+        if rng.chance(1, 16) {
+            let v = self.fresh("tv");
+            if rng.chance(1, 2) {
+                out.push(s(format!("{v} = A[{}]", rng.range(1, 9))));
+                out.push(s(format!("{v} = B[{}]", rng.range(1, 9))));
+                out.push(s(format!("{v} {{ | =A[n] => 1 | =B[n] => 2 }}")));
+                self.last_int = true;
+            } else {
+                let (p, q, r) = (self.fresh("i"), self.fresh("i"), self.fresh("i"));
+                out.push(s(format!("{v} = [{}, 64]", rng.range(1, 9))));
+                out.push(s(format!("{v} = [{}, 60, 29]", rng.range(1, 90))));
+                out.push(s(format!("[{p}, {q}, {r}] = {v}")));
+                self.ints.push(p);
+                self.ints.push(q);
+                self.ints.push(r);
+            }
+            return out;
+        }
         // a variable bound from the flowing value; later the flowing value - another one by then - is
         // type-tested: that test says nothing about the variable
         if rng.chance(1, 16) {
